@@ -1093,6 +1093,30 @@ def c04(tier, rng, fam='C04'):
                     b.step('sopen', c=c, kind=kind, hp=hp)
                     b.step('send', c=c, pay='x').step('close', c=c).step('hdr', c=c).step('recv', c=c, n=2).step('trl', c=c)
             out.append(b.q().done())
+    # the same with the calls in flight AT THE SAME TIME (their handlers have set everything and wait) and a common value
+    # list with spare capacity (three values: Go grows the slice to four) - a merge that keeps the caller's slice and
+    # appends in place makes the calls write into one another's metadata
+    for kind in ('unary', 'bidi'):
+        for rep in range(2):
+            b = B(fam, '%s four calls in flight sharing common header/trailer objects #%d' % (kind, rep), ser=bool(rep))
+            common_h = [['common', 'h1'], ['common', 'h2'], ['common', 'h3'], ['Svc-Id', 'x1']]
+            common_t = [['common-t', 't1'], ['common-t', 't2'], ['common-t', 't3']]
+            for c in range(1, 5):
+                own_h, own_t = [['call', 'c%d' % c], ['common', 'own%d' % c]], [['call-done', 'c%d' % c], ['common-t', 'own-t%d' % c]]
+                hp = [dict(o='sethdr', md=common_h), dict(o='sethdr', md=own_h), dict(o='settrl', md=common_t), dict(o='settrl', md=own_t)]
+                if kind == 'unary':
+                    b.step('ucall', c=c, pay='q%d' % c, hp=hp)
+                else:
+                    b.step('sopen', c=c, kind=kind, hp=[dict(o='recv')] + hp)
+                    b.step('send', c=c, pay='x')
+            b.q()
+            for c in (3, 1, 4, 2):
+                if kind == 'unary':
+                    b.step('hop', c=c, h=ret(pay='rep%d' % c))
+                else:
+                    b.step('hops', c=c, hp=[dict(o='send', pay='m'), dict(o='drain'), ret()])
+                    b.step('hdr', c=c).step('recv', c=c).step('close', c=c).step('recv', c=c).step('trl', c=c)
+            out.append(b.q().done())
     # random metadata sets on every kind: request metadata, headers in the three ways, trailers
     n = 60 if tier == 'quick' else 1250
     for r_ in range(n):
